@@ -358,6 +358,12 @@ func (c *FnCtx) frameDesignators(k string, fc *FuncContract, sc *SpecCtx, entry 
 			}
 			continue
 		}
+		if pv := c.pkgVarKey(m); pv != "" {
+			if k == pv {
+				return true, nil, nil
+			}
+			continue
+		}
 		e, err := parseSpec(m)
 		if err != nil {
 			panic(toolErr("modifies %q: %v", m, err))
